@@ -22,6 +22,8 @@ def configs(ctx):
                  invariants=("HashInvX",), properties=("NoClobber", "RekeyCarries", "UpdateNoOverwrite")),
         F.Config("rekey-empty-start", ["open_sp", "copy", "setkey", "assign", "init", "docset", "writefile", "remove"], 5 if q else 6, "mixed", limit=4000 if q else 200000,
                  invariants=("HashInvX",), properties=("NoClobber", "RekeyCarries")),
+        F.Config("rekey-typed-values", ["open_sp", "open_id", "copy", "setkey", "init", "docset", "readsp"], 4 if q else 5, "typed", init_jobs=1, limit=3000 if q else 150000,
+                 invariants=("HashInvX",), properties=("NoClobber", "RekeyCarries")),
         F.Config("move-clone", ["open_sp", "open_id", "move", "clone", "setkey", "docset", "writefile", "init", "remove"], 4 if q else 5, "mixed", projects=("P", "Q"),
                  init_jobs=2, limit=4000 if q else 150000, invariants=("HashInvX",), properties=("NoClobber", "MoveKeepsId", "CloneIndependent", "RekeyCarries")),
         F.Config("long-random", rekey + ["writefile", "remove", "move", "clone", "restart"], 0, "int", projects=("P", "Q"), handles=("h1", "h2", "h3"), files=("f1", "f2"),
